@@ -57,7 +57,26 @@ pub fn c16(tier: &str, seed: u64) -> Vec<Case> {
             // the same record in another class is another record, for every kind (OPT included)
             let mut other_class = built.clone();
             other_class.class = if built.class == CLASS::IN { CLASS::CH } else { CLASS::IN };
-            for (a, b) in [(&built, &other), (&built, &borrowed), (&built, &third), (&built, &other_class)] {
+            // near misses: the same record with one letter of its RDATA in the other case, or one bit of it flipped, as
+            // read from the wire (names compare case-insensitively, nothing else does)
+            let mut near: Vec<ResourceRecord<'static>> = vec![];
+            if let Ok(plain) = p.build_bytes_vec() {
+                if let Some(w) = crate::walker::walk(&plain) {
+                    let e = &w.sections[0][0];
+                    let letters: Vec<usize> = (e.rd_start..e.next()).filter(|i| plain[*i].is_ascii_alphabetic()).collect();
+                    let mut tries: Vec<(usize, u8)> = vec![];
+                    if !letters.is_empty() { for _ in 0..2 { tries.push((*g.rng.pick(&letters), 0x20)); } }
+                    if e.next() > e.rd_start { tries.push((e.rd_start + g.rng.below((e.next() - e.rd_start) as u64) as usize, 1 << g.rng.below(8))); }
+                    for (at, bit) in tries {
+                        let mut m = plain.clone();
+                        m[at] ^= bit;
+                        if let Ok(q) = Packet::parse(&m) { if q.answers.len() == 1 { near.push(q.answers[0].clone().into_owned()); } }
+                    }
+                }
+            }
+            let mut pairs: Vec<(&ResourceRecord, &ResourceRecord)> = vec![(&built, &other), (&built, &borrowed), (&built, &third), (&built, &other_class)];
+            for n in &near { pairs.push((&borrowed, n)); }
+            for (a, b) in pairs {
                 let (eq, heq) = (a == b, h(a) == h(b));
                 let mut set = HashSet::new();
                 set.insert(a.clone());
